@@ -31,7 +31,11 @@ PIECES = ["%{message}", "%{type}", "%{category}", "%{line}", "%{file}", "%{type:
 def gen_pattern(rnd):
     for _ in range(50):
         p = "".join(rnd.choice(PIECES) for _ in range(rnd.randint(1, 7)))
-        if "%{message" not in p:
+        if rnd.random() < 0.12:
+            # only conditional blocks: messages of the other types format to the EMPTY string, which is still "formatted"
+            p = "".join(rnd.choice(["%{if-warning}W %{message}%{endif}", "%{if-critical}E %{message}%{endif}", "%{if-debug}%{message}%{endif}",
+                                    "%{if-info}i:%{message}%{endif}"]) for _ in range(rnd.randint(1, 2)))
+        elif "%{message" not in p:
             p += " %{message}"
         probe = {"type": 1, "line": 3, "file": b"src/app/main.cpp", "func": b"int app::run(int)", "cat": b"app", "text": "hello",
                  "attrs": {}, "time_ms": 0, "thread_id": 1, "steady_ms": 0, "func_clean": "app::run"}
